@@ -387,6 +387,10 @@ func profileFor0(prop string, r *sim.Rand, i int, quick bool) sim.Profile {
 		p.EvidencePct, p.BurnPct = 0, 0
 		p.SecondDenom = i%3 == 0
 		p.ForeignKeyAccount = i%4 == 1
+		p.HugeFeeMultipliers = i%4 == 2
+		if p.HugeFeeMultipliers {
+			p.W["govparam"] = 14
+		}
 	case "C05", "C06", "C09":
 		small = true
 		p = baseProfile(r, true)
